@@ -24,11 +24,15 @@ def _child(plan, wfd):
     from comm.platform import Platform
     from mgr.runner import ManagerRunner
     from ledger.hsm2dongle import HSM2Dongle
+    from ledger.hsm2dongle_tcp import HSM2DongleTCP
+    from sgx.hsm2dongle import HSM2DongleSGX
     import manager_ledger
-    Platform.set(Platform.LEDGER)
+    import manager_sgx
+    plat = plan.get("plat", "ledger")
+    Platform.set({"ledger": Platform.LEDGER, "sgx": Platform.SGX, "tcp": Platform.X86}[plat])
     rng = random.Random(plan["seed"])
-    sc = bringup.scenario_from_env("ledger", plan["needchg"], plan["env"], rng)
-    world = World(sc.dev, "hid")
+    sc = bringup.scenario_from_env("sgx" if plat == "sgx" else "ledger", plan["needchg"], plan["env"], rng)
+    world = World(sc.dev, "hid" if plat == "ledger" else "tcp")
     install(world)
     state = {"k": -1}
 
@@ -41,7 +45,18 @@ def _child(plan, wfd):
             state["skip"] = 4
     world.on_event = base_on_event
 
+    seen = {"onb": 0}
+
     def fault_hook(w, apdu, idx):
+        if state["k"] < 0:
+            # start-up: the environment's answer to the first onboarded query / the retries query
+            if len(apdu) >= 2 and apdu[1] == 0x06:
+                seen["onb"] += 1
+                if seen["onb"] == 1 and sc.onb_err is not None:
+                    return sc.onb_err
+            if len(apdu) >= 2 and apdu[1] in (0x45, 0xA2) and sc.retries_err is not None:
+                return sc.retries_err
+            return None
         if state.get("skip", 0) > 0:
             state["skip"] -= 1
             return None
@@ -96,7 +111,17 @@ def _child(plan, wfd):
                                     version_one=bool(plan["v1"]), host="127.0.0.1", port=0,
                                     pin_file=pin_path, force_pin_change=False, io_debug=False)
     emit({"k": "start"})
-    runner = ManagerRunner("powHSM manager", lambda o: HSM2Dongle(o.io_debug), manager_ledger.load_pin)
+    options.tcpconn_host, options.tcpconn_port = "127.0.0.1", 7777
+    if plat == "ledger":
+        runner = ManagerRunner("powHSM manager", lambda o: HSM2Dongle(o.io_debug), manager_ledger.load_pin)
+    elif plat == "sgx":
+        runner = ManagerRunner("powHSM manager for SGX",
+                               lambda o: HSM2DongleSGX(o.tcpconn_host, o.tcpconn_port, o.io_debug),
+                               manager_sgx.load_pin)
+    else:
+        runner = ManagerRunner("powHSM manager for TCPSigner",
+                               lambda o: HSM2DongleTCP(o.tcpconn_host, o.tcpconn_port, o.io_debug),
+                               load_pin=lambda o: None)
     try:
         runner.run(options)
         emit({"k": "exit", "how": "returned"})
@@ -173,7 +198,7 @@ GOOD_ENV = {"onb": "yes", "mode1": "signer", "uiver": [5, 4, 1], "echo": "t", "r
             "newpin": "ack", "mode2": "signer", "appver": [5, 4, 1]}
 
 
-def run_lifetime(scratch, tag, should, causes, v1, rng, start_env=None):
+def run_lifetime(scratch, tag, should, causes, v1, rng, start_env=None, plat="ledger"):
     """Fork one manager process. Returns (events, info)."""
     env.setup()
     e = dict(GOOD_ENV)
@@ -196,7 +221,7 @@ def run_lifetime(scratch, tag, should, causes, v1, rng, start_env=None):
         else:
             e["onb"] = "err"
     else:
-        if rng.random() < 0.4:
+        if plat != "tcp" and rng.random() < 0.4:
             e.update(mode1="boot")       # starts locked: unlock, exit to the signer, then serve
     steps, lines_, labels = [], [], []
     for c in causes:
@@ -204,7 +229,7 @@ def run_lifetime(scratch, tag, should, causes, v1, rng, start_env=None):
         lines_.append(line)
         steps.append(step)
         labels.append(label)
-    plan = {"seed": rng.random(), "env": e, "needchg": needchg, "v1": v1, "reqs": steps,
+    plan = {"seed": rng.random(), "env": e, "needchg": needchg, "v1": v1, "reqs": steps, "plat": plat,
             "pin_path": os.path.join(scratch, "pin_%s.txt" % tag)}
     r, w = os.pipe()
     pid = os.fork()
@@ -299,5 +324,5 @@ def run_lifetime(scratch, tag, should, causes, v1, rng, start_env=None):
             full[conn_idx[i]]["cause"] = "unsafe"
         if c == "unsafe":
             pending_unsafe = True
-    return full, {"env": e, "needchg": needchg, "causes": causes, "labels": labels, "v1": v1,
+    return full, {"env": e, "needchg": needchg, "causes": causes, "labels": labels, "v1": v1, "plat": plat,
                   "child": [c for c in child_events if c["k"] != "start"][:8]}
